@@ -457,7 +457,7 @@ func fieldName(structT types.Type, idx int) string {
 	if !ok || idx >= st.NumFields() {
 		return fmt.Sprintf("?%d", idx)
 	}
-	return st.Field(idx).Name()
+	return canonFieldName(st.Field(idx))
 }
 
 // fieldOfAddr: for a FieldAddr returns (struct type name, field name).
